@@ -126,6 +126,35 @@ func replaceSelector(e ast.Expr, x, sel, name string) ast.Expr {
 	return e
 }
 
+func allIfConds(fd *ast.FuncDecl) []string {
+	var out []string
+	if fd == nil {
+		return out
+	}
+	ast.Inspect(fd.Body, func(n ast.Node) bool {
+		if is, ok := n.(*ast.IfStmt); ok {
+			out = append(out, exprText(is.Cond))
+		}
+		return true
+	})
+	return out
+}
+
+func countLoops(fd *ast.FuncDecl) int {
+	n := 0
+	if fd == nil {
+		return n
+	}
+	ast.Inspect(fd.Body, func(x ast.Node) bool {
+		switch x.(type) {
+		case *ast.ForStmt, *ast.RangeStmt:
+			n++
+		}
+		return true
+	})
+	return n
+}
+
 func methodsOf(f *ast.File, recv string) []string {
 	var out []string
 	for _, d := range f.Decls {
@@ -334,6 +363,29 @@ func genC03(repo string) (string, error) {
 	fmt.Fprintf(&sb, "\n/-- assignments of `merger.prepare` when `m.rollup == nil` (compaction) -/\n")
 	fmt.Fprintf(&sb, "def compactPrepare : List String := %s\n", LeanStrList(elseAssigns))
 	fmt.Fprintf(&sb, "def firstBlockCheck : String := %s\n", strconv.Quote(findIfCond(prep, "len(ctx.targetFields)")))
+
+	fmt.Fprintf(&sb, "def rangeStartCheck : String := %s\n", strconv.Quote(findIfCond(prep, "sourceRange.Start >")))
+	fmt.Fprintf(&sb, "def rangeEndCheck : String := %s\n", strconv.Quote(findIfCond(prep, "sourceRange.End <")))
+
+	// dataScanner: one container step per scan call; what nextContainer does with a zero-length bucket
+	_, rd, err := ParseFile(repo, "tsdb/tblstore/metricsdata/reader.go")
+	if err != nil {
+		return "", err
+	}
+	scanFn := FindFunc(rd, "dataScanner", "scan")
+	nextFn := FindFunc(rd, "dataScanner", "nextContainer")
+	fmt.Fprintf(&sb, "\n/-- `dataScanner.scan`: the `if` conditions in source order -/\n")
+	fmt.Fprintf(&sb, "def scanChecks : List String := %s\n", LeanStrList(allIfConds(scanFn)))
+	fmt.Fprintf(&sb, "def scanLoops : Nat := %d\n", countLoops(scanFn))
+	fmt.Fprintf(&sb, "def nextContainerChecks : List String := %s\n", LeanStrList(allIfConds(nextFn)))
+	tolerates := false
+	for _, c := range allIfConds(nextFn) {
+		if c == "len(level3Block) == 0" {
+			tolerates = true
+		}
+	}
+	fmt.Fprintf(&sb, "/-- does `nextContainer` accept a zero-length series bucket (a container whose series were all\nflushed without field data) instead of failing on it? -/\n")
+	fmt.Fprintf(&sb, "def scannerToleratesEmptyBucket : Bool := %v\n", tolerates)
 
 	// compaction job structure
 	_, cj, err := ParseFile(repo, "kv/compact_job.go")
